@@ -73,7 +73,7 @@ fn catch_body(tag: &str) -> Vec<Stmt> {
     vec![p(&format!("C{}", tag)), print_stmt(call(var("type"), vec![var("e")])), print_stmt(var("e"))]
 }
 
-fn leaf_stmts(l: Leaf) -> Vec<Stmt> {
+pub fn leaf_stmts(l: Leaf) -> Vec<Stmt> {
     match l {
         Leaf::Fall => vec![p("leaf")],
         Leaf::ThrowStr => vec![st(StmtKind::Throw(s("boom")))],
